@@ -25,6 +25,9 @@ type textFx struct {
 	Unless int
 	Why    string
 	Pos    token.Pos
+	// NotColl: the alteration happens only when the value is neither a map nor
+	// an array (it sits on the false edges of IsMap()/IsArray()/IsArrayOrMap())
+	NotColl bool
 }
 
 type textAnalysis struct {
@@ -85,6 +88,13 @@ func isFreshMlrval(v ssa.Value, depth int) bool {
 		if cal := x.Call.StaticCallee(); cal != nil {
 			n := SSAFuncName(cal)
 			if strings.HasPrefix(n, "pkg/mlrval.From") || strings.HasPrefix(n, "pkg/mlrval.TryFrom") || strings.HasSuffix(n, "Mlrval.Copy") || strings.HasPrefix(n, "pkg/mlrval.MlrvalFrom") {
+				return true
+			}
+		}
+	case *ssa.Extract:
+		// first result of a constructor that also returns an error
+		if call, ok := x.Tuple.(*ssa.Call); ok && x.Index == 0 {
+			if cal := call.Call.StaticCallee(); cal != nil && strings.HasPrefix(SSAFuncName(cal), "pkg/mlrval.NewMlrvalFor") {
 				return true
 			}
 		}
@@ -288,7 +298,7 @@ func (ta *textAnalysis) effects(fn *ssa.Function) []textFx {
 				}
 				// whole-struct store *p = v
 				if pi := paramIndex(fn, x.Addr); pi >= 0 && isMlrvalPtr(x.Addr.Type()) {
-					add(textFx{Param: pi, Unless: -1, Why: "overwrites the whole value (*mv = ...)", Pos: x.Pos()})
+					add(textFx{Param: pi, Unless: -1, Why: "overwrites the whole value (*mv = ...)", Pos: x.Pos(), NotColl: knownCollection(b, x.Addr, false)})
 				}
 			case ssa.CallInstruction:
 				com := x.Common()
@@ -308,12 +318,18 @@ func (ta *textAnalysis) effects(fn *ssa.Function) []textFx {
 						if isFreshMlrval(arg, 0) {
 							continue
 						}
+						if e.NotColl && knownCollection(b, arg, true) {
+							continue // the callee alters only non-collections; here the value is known to be one
+						}
+						if e.NotColl && freshOrCollectionOnEveryEdge(arg) {
+							continue // joined from branches each of which gives a fresh value or a known collection
+						}
 						if pi := paramIndex(fn, arg); pi >= 0 {
 							unless := -1
 							if e.Unless >= 0 && e.Unless < len(com.Args) {
 								unless = paramIndex(fn, com.Args[e.Unless])
 							}
-							add(textFx{Param: pi, Unless: unless, Why: "calls " + SSAName(t) + " which " + e.Why, Pos: in.Pos()})
+							add(textFx{Param: pi, Unless: unless, Why: "calls " + SSAName(t) + " which " + e.Why, Pos: in.Pos(), NotColl: e.NotColl})
 						} else {
 							ta.sinks = append(ta.sinks, fmt.Sprintf("%s|%s|calls %s which %s", SSAName(fn), ta.c.Rel(in.Pos()), SSAName(t), e.Why))
 						}
@@ -329,13 +345,74 @@ func (ta *textAnalysis) effects(fn *ssa.Function) []textFx {
 
 // sinkOK: functions that legitimately alter the text of existing values,
 // with reason.
+// knownCollection: at block b the value v is known to be a map or array
+// (want=true: on a true edge of IsMap / IsArray / IsArrayOrMap), or known to be
+// neither (want=false: on the false edges of IsMap and IsArray, or of
+// IsArrayOrMap).
+func knownCollection(b *ssa.BasicBlock, v ssa.Value, want bool) bool {
+	notMap, notArr := false, false
+	for _, g := range GuardsAt(b) {
+		for _, pred := range []string{"IsMap", "IsArray", "IsArrayOrMap"} {
+			if IsPredCall(g.Cond, "pkg/mlrval.Mlrval."+pred, v) {
+				if want && g.Polarity {
+					return true
+				}
+				if !want && !g.Polarity {
+					switch pred {
+					case "IsMap":
+						notMap = true
+					case "IsArray":
+						notArr = true
+					default:
+						return true
+					}
+				}
+			}
+		}
+	}
+	return !want && notMap && notArr
+}
+
+// freshOrCollectionOnEveryEdge: v is a phi each of whose incoming values is
+// freshly constructed or, on that edge, known to be a map or array.
+func freshOrCollectionOnEveryEdge(v ssa.Value) bool {
+	phi, ok := v.(*ssa.Phi)
+	if !ok {
+		return false
+	}
+	for i, e := range phi.Edges {
+		if isFreshMlrval(e, 0) {
+			continue
+		}
+		pred := phi.Block().Preds[i]
+		if knownCollection(pred, e, true) {
+			continue
+		}
+		// the edge itself: pred ends in a test of e
+		okEdge := false
+		if iff, isIf := pred.Instrs[len(pred.Instrs)-1].(*ssa.If); isIf {
+			cond, pol := stripNot(iff.Cond, true)
+			for _, p := range []string{"IsMap", "IsArray", "IsArrayOrMap"} {
+				if IsPredCall(cond, "pkg/mlrval.Mlrval."+p, e) {
+					taken := pred.Succs[0] == phi.Block()
+					if taken == pol {
+						okEdge = true
+					}
+				}
+			}
+		}
+		if !okEdge {
+			return false
+		}
+	}
+	return true
+}
+
 var sinkOK = map[string]string{
 	"(*pkg/mlrval.Mlrval).StringifyValuesRecursively": "--jvquoteall / json_stringify: documented re-rendering of every value as a string",
 	"(*pkg/mlrval.Mlrmap).StringifyValuesRecursively": "--jvquoteall: documented re-rendering of every value as a string on JSON output",
 	"(*pkg/mlrval.MlrmapEntry).JSONParseInPlace":      "json-parse verb: the named field is assigned its parsed value (an assignment, by documentation)",
 	"(*pkg/mlrval.RecordArena).newValue":              "slab allocation: the slot is a fresh value being initialised with the input text",
-	"(*pkg/runtime.StackFrame).setIndexed":            "indexed assignment to a local variable (auto-creates the base collection): an assignment",
-	"pkg/mlrval.putIndexedOnMap":                      "indexed assignment into a map element (auto-create): an assignment",
 }
 
 func runC03(c *Ctx, r *Report) {
@@ -535,6 +612,7 @@ func runC03(c *Ctx, r *Report) {
 
 	c03Readers(c, r)
 	c03Writers(c, r)
+	c03NoSingletonInCollections(c, r)
 }
 
 func fxStrings(c *Ctx, fx []textFx) []string {
